@@ -21,9 +21,10 @@ type KeepCase struct {
 	TLS      bool   `json:"tls,omitempty"`
 	Packets  int    `json:"packets"`
 	Size     int    `json:"size"`
-	Method   string `json:"method"`   // GET_PARAMETER OPTIONS SET_PARAMETER
-	Pipeline int    `json:"pipeline"` // requests kept in flight
-	PauseUs  int    `json:"pause_us"` // writer pause every 16 packets
+	Method   string `json:"method"`           // GET_PARAMETER OPTIONS SET_PARAMETER
+	Pipeline int    `json:"pipeline"`         // requests kept in flight
+	PauseUs  int    `json:"pause_us"`         // writer pause every 16 packets
+	Tunnel   string `json:"tunnel,omitempty"` // "", http, ws
 }
 
 type keepStats struct {
@@ -48,7 +49,13 @@ func runKeep(c KeepCase) (*keepStats, error) {
 	}
 	defer w.Close()
 	w.H.KeepMainStream = true
-	r, err := dialRawTLS(w.Host, c.TLS)
+	var r *rawClient
+	if c.Tunnel != "" {
+		// the reader reaches the server through one of its tunnels: responses and frames share the tunnel's byte stream
+		r, err = dialRawTunnel(w.Host, c.Tunnel, c.TLS)
+	} else {
+		r, err = dialRawTLS(w.Host, c.TLS)
+	}
 	if err != nil {
 		return st, nil
 	}
